@@ -1,7 +1,7 @@
 import nodettl as N
 def run(chk):
     thorough = chk.tier == "thorough"
-    N.model_check(chk, dev=[("dev_nocap", "C03_Derived")], reach=[("reach_farfuture", "Reach_FarFutureCapped"), ("reach_pending", "Reach_PendingFetch")])
+    N.model_check(chk, dev=[("dev_nocap", "C03_Derived"), ("dev_keeplater", "C03_ArrivalWrites")], reach=[("reach_farfuture", "Reach_FarFutureCapped"), ("reach_pending", "Reach_PendingFetch")])
     N.run_driver(chk, N.model_sequences(chk, 6000 if thorough else 600), "tlc-state-cover")
     N.run_driver(chk, N.random_behaviours(chk.rng, 4000 if thorough else 300, "c03"), "random-manifest-arrivals")
     N.run_driver(chk, N.random_behaviours(chk.rng, 2000 if thorough else 150, "c05"), "random-with-ticks")
